@@ -67,6 +67,12 @@ def gen(tier, rng):
         for pre in XPRE:
             x = pre + body
             yield {"d1": D1S[(len(x) + len(pre)) % len(D1S)], "x": x, "d2": D2S[len(body) % len(D2S)]}
+    # the malformed part at the very END of the text (D2 empty), with and without line ends after it: the blocks of D1
+    # are still returned unchanged (first clause of the property)
+    for body in C.token_strings(C.SPLIT_ALPHABET, 2):
+        for pre in XPRE:
+            for tail in ("", "\n", "  \n", "\r\n", "\n\n\n"):
+                yield {"d1": D1S[(len(body) + len(tail)) % len(D1S)], "x": pre + body + tail, "d2": ""}
     # malformed middles of a SIZE that matters: very deep unclosed / closed nesting, very long truncated values,
     # thousands of stray delimiters (recursion limits, quadratic scans)
     for depth in ((1500, 6000) if tier == "quick" else (1500, 6000, 30000)):
